@@ -53,6 +53,11 @@ def gen_op_cases(prop: str, tier: str, seed: int, n_quick: int, n_thorough: int,
                 if r < acc:
                     dt = name
                     break
+        if fn == "conv1d" and dt in ("bfloat16", "float16"):
+            # PyTorch's own low-precision CPU conv kernels are unusable as a reference: bfloat16 conv1d backward returns
+            # uninitialised memory in padding-only positions (not reproducible run to run, shown with plain F.conv1d) and
+            # float16 conv1d with L=1 + padding segfaults. conv1d is exercised in float32 / float64 only.
+            dt = "float32"
         cases.append({"kind": "op", "fn": fn, "cfg": cfg, "constraint": constraint, "dtype": dt,
                       "seeds": [derive_seed(seed, prop, i, k) % (2**31) for k in range(4)]})
     return cases
